@@ -116,7 +116,7 @@ Section Step.
       + apply mul_f_bounds; try assumption; qlra.
       + split; [apply Qcle_refl|assumption].
       + split; [apply Qcle_refl|assumption].
-    - destruct (qltb_spec (qfrac 1 1000) (c_p c)) as [Hgt|Hle].
+    - destruct (qltb_spec 0 (c_p c)) as [Hgt|Hle].
       + assert (Hp0 : 0 < c_p c) by qlra.
         destruct (frac_le_1 (c_src c j) (c_p c) Hj0 Hj1 Hp0) as [R0 R1].
         assert (M : 0 <= qmin (c_u c) (c_p c) /\ qmin (c_u c) (c_p c) <= c_p c) by (split; qlra).
@@ -143,10 +143,24 @@ Section Step.
   Proof.
     intros Hd. unfold s, s_used_src, s_used, step_out. cbn [fst snd so_src so_upv so_uchp so_uts so_uea so_used].
     unfold used_tot_f, used_src_f. destruct pr; [ring|].
-    destruct (qltb_spec (qfrac 1 1000) (c_p c)) as [Hgt|Hle].
+    destruct (qltb_spec 0 (c_p c)) as [Hgt|Hle].
     - assert (Hp0 : c_p c <> 0) by (intro Z; rewrite Z in Hgt; qlra).
       cbn [c_src]. unfold c_p in *. field. exact Hp0.
-    - destruct Hd as [Hz|Hg]; [|contradiction].
+    - clear Hd. pose proof (c_p_nonneg c Hok) as Hp. assert (Hz : c_p c = 0) by qlra.
+      assert (M : qmin (c_u c) (c_p c) = 0). { destruct Hok. rewrite Hz. qlra. }
+      rewrite M. ring.
+  Qed.
+  (** ... for every column: since fix c3bd83b the share of a source is its part of any non-zero production *)
+  Lemma used_src_sum_any :
+    s_used_src s EL_INSITU + s_used_src s EL_COGEN + s_used_src s PS_TERMOSOLAR + s_used_src s PS_EAMBIENTE
+    = s_used s.
+  Proof.
+    unfold s, s_used_src, s_used, step_out. cbn [fst snd so_src so_upv so_uchp so_uts so_uea so_used].
+    unfold used_tot_f, used_src_f. destruct pr; [ring|].
+    destruct (qltb_spec 0 (c_p c)) as [Hgt|Hle].
+    - assert (Hp0 : c_p c <> 0) by (intro Z; rewrite Z in Hgt; qlra).
+      cbn [c_src]. unfold c_p in *. field. exact Hp0.
+    - pose proof (c_p_nonneg c Hok) as Hp. assert (Hz : c_p c = 0) by qlra.
       assert (M : qmin (c_u c) (c_p c) = 0). { destruct Hok. rewrite Hz. qlra. }
       rewrite M. ring.
   Qed.
